@@ -32,12 +32,12 @@ def run(ck):
     ck.classify(fails, ctx_part)
     # packing / covering side; C in {6,12} puts items exactly on the class thresholds C/2 and C/3
     groups = []
-    for g in scope.q_scope(ck, 5, 6, [6]) + scope.q_scope(ck, 4, 4, [4]):
+    for g in scope.q_scope(ck, 5, 6, [6]) + scope.q_scope(ck, 4, 4, [4]) + scope.q_scope(ck, 4, 5, [5]):
         if max(g["vals"]) <= g["C"]:
             g = dict(g); g["orc"] = 0
             g["calls"] = [pcall(a, "iddict", extra=False) for a in FIT4]
             groups.append(g)
-    for g in scope.q_scope(ck, 5, 8, [6], minv=1) + scope.q_scope(ck, 4 if q else 5, 7, [12], minv=1) + scope.q_scope(ck, 4, 6, [4], minv=1):
+    for g in scope.q_scope(ck, 5, 8, [6], minv=1) + scope.q_scope(ck, 4 if q else 5, 7, [12], minv=1) + scope.q_scope(ck, 4, 6, [4], minv=1) + scope.q_scope(ck, 4 if q else 5, 7, [5, 7, 9], minv=1):
         g = dict(g); g["orc"] = 0
         g["calls"] = [pcall(a, "iddict", extra=False) for a in COVERS]
         groups.append(g)
@@ -50,7 +50,7 @@ def run(ck):
         g["calls"] = [pcall(a, "iddict", extra=False) for a in COVERS]
         groups.append(g)
     ck.rule = ("TLC enumerates every arrival sequence (ties between equal values in every order, items exactly filling a bin, items equal to binsize/2 and "
-               "binsize/3 with C in {6,12}) of <=5 values; each heuristic's result is compared by TLC with the Textbook.tla transcription of its documented rule: "
+               "binsize/3 with C in {6,12}; odd sizes 5,7,9 where the thresholds fall between integers) of <=5 values; each heuristic's result is compared by TLC with the Textbook.tla transcription of its documented rule: "
                "bag of sums for all nine, bins as bags of values for round-robin, ff, ffd and the three covers. Items are presented under names (dict keyed by "
                "id) so that bins are compared item for item by value. non-trivial = distinct input with >=2 items")
     run_pack_groups(ck, groups, {"C14"}, "C14 fit / cover heuristics vs textbook rule", chunk=8000)
